@@ -67,7 +67,8 @@ Section NeverEarly.
 Variable K : kind.
 Variable retry : bool.
 Variable arm : Z -> option Z.
-Hypothesis arm_lo : forall x a, 0 <= x -> arm x = Some a -> x <= a.
+Variable DMAX : Z.      (* up to this duration the arming function never arms less than it was asked for *)
+Hypothesis arm_lo : forall x a, 0 <= x <= DMAX -> arm x = Some a -> x <= a.
 
 Definition loopk := negb (is_single K).
 
@@ -76,7 +77,7 @@ Definition dl_set (p : pc) : bool :=
 
 Definition InvNE (s : st) : Prop :=
   0 <= dur s /\
-  (forall t y, res s = Some (RTimeout, t, y) -> tcall s + dur s <= t) /\
+  (loopk = true \/ dur s <= DMAX -> forall t y, res s = Some (RTimeout, t, y) -> tcall s + dur s <= t) /\
   (pcs s <> Idle -> tcall s <= now s) /\
   (loopk = true -> dl_set (pcs s) = true -> tcall s + dur s <= dl s) /\
   (pcs s = Parked \/ pcs s = After VTimeout -> tcall s <= tp s <= now s) /\
@@ -84,7 +85,7 @@ Definition InvNE (s : st) : Prop :=
   (loopk = false -> pcs s = Parked \/ pcs s = After VTimeout -> ar s = arm (dur s)) /\
   (loopk = false -> pcs s <> ReadDl /\ pcs s <> ReadRem /\ pcs s <> Chk) /\
   (pcs s = Ret RTimeout ->
-     if loopk then obs s = true /\ dl s <= now s else tcall s + dur s <= now s).
+     if loopk then obs s = true /\ dl s <= now s else dur s <= DMAX -> tcall s + dur s <= now s).
 
 Lemma invne_init : InvNE init.
 Proof. unfold InvNE, init; cbn. repeat split; fin0. Qed.
@@ -117,10 +118,15 @@ Qed.
 Lemma invne_reach s : Reach K retry arm s -> InvNE s.
 Proof. induction 1; [apply invne_init | eapply invne_step; eassumption]. Qed.
 
-(* never early, every kind of caller: a call that returned Timeout returned at or after call + d *)
+(* never early, every kind of caller: a call that returned Timeout returned at or after call + d
+   (the deadline loops: for EVERY duration; the single parks: up to the cap of the arming function) *)
 Theorem timeout_never_early s :
-  Reach K retry arm s -> forall t y, res s = Some (RTimeout, t, y) -> tcall s + dur s <= t.
-Proof. intros R. apply (invne_reach s R). Qed.
+  Reach K retry arm s -> is_single K = false \/ dur s <= DMAX ->
+  forall t y, res s = Some (RTimeout, t, y) -> tcall s + dur s <= t.
+Proof.
+  intros R C. destruct (invne_reach s R) as (_ & H & _). apply H. unfold loopk.
+  destruct C as [C|C]; [left; rewrite C; reflexivity | right; exact C].
+Qed.
 
 (* the deadline loops leave with Timeout only after `Instant::now() >= deadline` was observed, and the deadline is
    never before call + d (no arithmetic slip: it is computed from a clock reading taken after the call) *)
@@ -135,7 +141,7 @@ Qed.
 
 (* the single parks report Timeout only with the park's own Timeout verdict, which comes at or after entry + armed *)
 Theorem single_timeout_not_early s :
-  Reach K retry arm s -> is_single K = true -> pcs s = Ret RTimeout -> tcall s + dur s <= now s.
+  Reach K retry arm s -> is_single K = true -> pcs s = Ret RTimeout -> dur s <= DMAX -> tcall s + dur s <= now s.
 Proof.
   intros R Hk P. destruct (invne_reach s R) as (_ & _ & _ & _ & _ & _ & _ & _ & Hret).
   unfold loopk in *. rewrite Hk in *. cbn in *. exact (Hret P).
